@@ -16,6 +16,11 @@
 (*                          markers in front of a reference / more than    *)
 (*                          127 chained accesses => failure showing E390;  *)
 (*    expect.t = "no390"    at most 127 => no E390 among the diagnostics;  *)
+(*    expect.t = "located"  a binary operator of a chain whose operands do  *)
+(*                          not fit (E551 / E550): C13 demands that the    *)
+(*                          diagnostic points at THAT operator (opidx) or  *)
+(*                          at one of its operands (Diagnostics.tla        *)
+(*                          CoversParts);                                  *)
 (*    expect.t = "free"     the documentation is silent: only the protocol *)
 (*                          (terminates, success | failure with >= 1       *)
 (*                          diagnostic, no crash) is demanded.             *)
@@ -102,11 +107,35 @@ Links == {"none", "a-imports-b", "mutual", "third-imports-both"}
 NameCells == [fam : {"names"}, kind : NameKinds, link : Links]
 NameExpect(x) == IF x.kind \in {"privfn", "privconst", "privstruct"} THEN [t |-> "valid"] ELSE [t |-> "free"]
 
-Cells == BuiltinCells \cup DepthCells \cup SizeCells \cup SymCells \cup NameCells
+(***************************************************************************)
+(* chains of one binary operator (features.md: operators of the same kind  *)
+(* chain without parentheses: examples/bitwise_operations.pn `b128 | b64 | *)
+(* b8`): n operands of one type, operand `bad` of another.  The chain is   *)
+(* left associative: operator j joins the chain of operands 1..j with      *)
+(* operand j + 1, so the first operator whose two sides differ is operator *)
+(* 1 when bad <= 2 and operator bad - 1 otherwise: THAT operator (or one   *)
+(* of its operands) is the offending text of the E551.  class: both        *)
+(* operands of a type the operator is not defined for (E550).              *)
+(***************************************************************************)
+ChainOps == {"+", "-", "*", "/", "%", "|", "&", "^"}
+ChainLayouts == IF Tier = "quick" THEN {"line", "lines", "tight"} ELSE {"line", "lines", "tight", "parens", "comments"}
+ChainCtxs == {"init", "arg", "ret"}
+ChainCells == { c \in [fam : {"chain"}, op : ChainOps, n : 2..4, bad : 1..4, layout : ChainLayouts, ctx : ChainCtxs,
+                       ty : {"u32/u8", "u8/u16"}] :
+                    /\ c.bad <= c.n
+                    \* (an argument whose FIRST operand has another type offends the parameter as well as the operator: which of the
+                    \* two is reported is not specified -- the pinned code reports the argument, E512)
+                    /\ ~(c.ctx = "arg" /\ c.bad = 1) }
+              \cup [fam : {"chain"}, op : ChainOps, n : {2}, bad : {0}, layout : ChainLayouts, ctx : ChainCtxs, ty : {"class"}]
+ChainOpIdx(c) == IF c.bad <= 2 THEN 1 ELSE c.bad - 1
+ChainExpect(c) == [t |-> "located", code |-> (IF c.ty = "class" THEN 550 ELSE 551), opidx |-> ChainOpIdx(c)]
+
+Cells == BuiltinCells \cup DepthCells \cup SizeCells \cup SymCells \cup NameCells \cup ChainCells
 Expect(x) == CASE x.fam = "builtin" -> BuiltinExpect(x)
                [] x.fam = "depth" -> DepthExpect(x)
                [] x.fam = "size" -> SizeExpect(x)
                [] x.fam = "names" -> NameExpect(x)
+               [] x.fam = "chain" -> ChainExpect(x)
                [] OTHER -> SymExpect(x)
 
 VARIABLE x
@@ -115,7 +144,8 @@ Next == UNCHANGED x
 Spec == Init /\ [][Next]_x
 
 \* sanity of R: every family has cells with a verdict and cells at both sides of the bound
-Sane == /\ Expect(x).t \in {"valid", "free", "e390", "no390"}
+Sane == /\ Expect(x).t \in {"valid", "free", "e390", "no390", "located"}
+        /\ (x.fam = "chain") => (Expect(x).opidx \in 1..(x.n - 1))
         /\ (x.fam = "depth" /\ x.construct \in RefConstructs) => (Expect(x).t = "e390") = (x.depth >= 128)
 EmitCase == PrintT(<<"CASE", ToJson([cell |-> x, expect |-> Expect(x)])>>)
 =============================================================================
